@@ -80,7 +80,9 @@ def ro_content_shape(W, H, base, name):
 
 @contract('mosromgr.mostypes.RunningOrderReplace.merge')
 class RunningOrderReplaceMerge(MergeContract):
-    props = ('C03', 'C04', 'C05', 'C06', 'C07', 'C12', 'C13', 'C14', 'C15')
+    # C01 / C02 hold "from every state reached by a prior merge history": roReplace is the one merge that swaps the running-order
+    # element, so the clause about the state of the running-order object (no detached element kept) is checked for them here
+    props = ('C01', 'C02', 'C03', 'C04', 'C05', 'C06', 'C07', 'C12', 'C13', 'C14', 'C15')
     cls_name = 'RunningOrderReplace'
     base_tag_name = 'roReplace'
     frame = 'root'
